@@ -531,6 +531,22 @@ def histLoop (fuel : Nat) (w : List (Lattice Float)) (ws : List String) (acc : L
           | some L => histLoop fuel w' rest (acc ++ [showAttrs L ++ " " ++ reprClass L])
           | none => acc ++ ["bad-op"]
 
+/-- build a world by a history (`lat.hq`): operations up to the separator `Q`; `Except.error kind` when a step raises -/
+def buildHist (fuel : Nat) (w : List (Lattice Float)) (ws : List String) :
+    Except String (List (Lattice Float) × List String) :=
+  match fuel with
+  | 0 => .error "bad-op"
+  | fuel + 1 =>
+    match ws with
+    | "Q" :: rest => .ok (w, rest)
+    | _ =>
+      match takeOp ws with
+      | none => .error "bad-op"
+      | some (op, rest) =>
+        match stepF w op with
+        | .error e => .error e
+        | .ok w' => buildHist fuel w' rest
+
 def showBool (b : Bool) : String := if b then "1" else "0"
 
 /-- queries on one lattice: `attrs` | `cart u` | `frac r` | `dot u v` | `norm u` | `rnorm h` |
@@ -575,6 +591,7 @@ end Lattice
 
 /-- line-protocol handler of the lattice model:
 * `lat.q <ctor op> <query>…`   → answers separated by ` | ` (or `err <Kind>` when the constructor raises)
+* `lat.hq <k> <op>… Q <query>…` → the same queries on object `k` reached through an update history
 * `lat.hist <op>…`             → per-step attributes of the touched object, `end`, all objects
 * `lat.ctorform <mask> <0|1>`  → branch of `__init__` taken
 * `lat.cosd x` / `lat.sind x`  → the helper functions -/
@@ -588,6 +605,17 @@ def latHandle (ws : List String) : Option String :=
       | .ok _ => some "bad-op"
       | .error e => some (if e == "bad-op" then e else "err " ++ e)
     | none => some "bad-op"
+  -- lat.hq <k> <op>… Q <query>… : queries on object k of the world reached by the history
+  | "lat.hq" :: k :: rest =>
+    match k.toNat? with
+    | none => some "bad-op"
+    | some k =>
+      match Lattice.buildHist (rest.length + 1) [] rest with
+      | .error e => some (if e == "bad-op" then e else "err " ++ e)
+      | .ok (w, qs) =>
+        match w[k]? with
+        | some L => some (" | ".intercalate (Lattice.queryLoop (qs.length + 1) L qs []))
+        | none => some "bad-op"
   | "lat.hist" :: rest => some (" | ".intercalate (Lattice.histLoop (rest.length + 1) [] rest []))
   | ["lat.ctorform", m, f] =>
     match m.toNat?, f.toNat? with
